@@ -413,6 +413,23 @@ def stepToRun (s : StepTo) : List Bool → Res (List Int)
     (if b then stepToNextBack s else stepToNext s).bind fun r =>
       (stepToRun r.2 ops).bind fun vs => .ok (match r.1 with | some x => x :: vs | none => vs)
 
+/-! vocabulary for the `StepTo` theorems -/
+
+/-- `x` lies between `a` and `b` inclusive (in either order) -/
+def between (a b x : Int) : Prop := min a b ≤ x ∧ x ≤ max a b
+
+/-- the step count and the signed step `new` computes -/
+def stepCount (start target step : Int) : Int :=
+  if step > 0 then Int.tdiv (iabs (target - start)) step else -1
+def stepSigned (start target step : Int) : Int := if target < start then wrap64 (-step) else step
+
+/-- invariant of every state reachable from `new(start, target, step)` by `next` / `next_back`:
+`lo` values have been taken from the front, `steps + 1` remain, `target` is the last remaining one -/
+def StepInv (start target step : Int) (s : StepTo) : Prop :=
+  s.step = stepSigned start target step ∧ -1 ≤ s.steps ∧ s.steps ≤ stepCount start target step ∧
+  (0 ≤ s.steps → ∃ lo, 0 ≤ lo ∧ lo + s.steps ≤ stepCount start target step ∧
+      s.target = start + stepSigned start target step * (lo + s.steps))
+
 /-- `range.expanded`: `start - n`, `end + n` -/
 def rangeExpanded (s e n : Int) : Res (Int × Int) :=
   (ckI64 (s - n)).bind fun s' => (ckI64 (e + n)).bind fun e' => .ok (s', e')
@@ -447,26 +464,23 @@ Before the fix the read was `data()[read_index]` and the write `data_mut()[write
 /-- one adversary move: the predicate's answer and the list length it leaves behind -/
 abbrev RetainMove := Bool × Int
 
-/-- state: read index, write index, current length -/
+/-- state: read index, write index, current length; `checked = false` is the code before the fix -/
 def retainLoop (checked : Bool) (len0 : Int) : Int → Int → Int → List RetainMove → Res (Int × Int)
-  | r, w, len, [] => .ok (w, len)
+  | _, w, len, [] => .ok (w, len)
   | r, w, len, (keep, len') :: ms =>
     if r < len0 then
-      -- read
-      (if r < len then Res.ok () else (if checked then Res.err else Res.panic)).bind fun _ =>
-        -- predicate ran: the list now has `len'` entries
+      if r < len then
+        -- the predicate ran: the list now has `len'` entries
         if keep then
-          (if w < len' then Res.ok (w + 1) else (if checked then Res.ok w else Res.panic)).bind fun w' =>
-            retainLoop checked len0 (r + 1) w' len' ms
+          if w < len' then retainLoop checked len0 (r + 1) (w + 1) len' ms
+          else if checked then retainLoop checked len0 (r + 1) w len' ms else .panic
         else retainLoop checked len0 (r + 1) w len' ms
+      else if checked then .ok (w, len) else .panic
     else .ok (w, len)
 
-/-- the loop, then `truncate(write_index)` (never panics; `err` encodes the early `break`) -/
+/-- the loop, then `truncate(write_index)` (never panics): the final length -/
 def listRetain (checked : Bool) (len0 : Int) (ms : List RetainMove) : Res Int :=
-  match retainLoop checked len0 0 0 len0 ms with
-  | .panic => .panic
-  | .err => .err
-  | .ok (w, len) => .ok (min w len)
+  (retainLoop checked len0 0 0 len0 ms).bind fun (w, len) => .ok (min w len)
 
 /-! ## string iterators (core_lib/string/iterators.rs): `next` and `size_hint` -/
 
